@@ -15,7 +15,7 @@ use std::collections::BTreeSet;
 use std::time::Duration;
 
 fn generate(ctx: &Ctx, n: usize, via_file: bool, tag: &str) -> Result<String, String> {
-    let dir = ctx.scratch.join(format!("c15-{}", tag));
+    let dir = ctx.fresh_dir(&format!("c15-{}", tag));
     let _ = std::fs::create_dir_all(&dir);
     let mut args = vec!["-n".to_string(), n.to_string()];
     let file = dir.join("queens.txt");
@@ -59,6 +59,7 @@ pub fn check_n(ctx: &Ctx, st: &mut Stats, n: usize, exact: bool, with_rsbdd: boo
         match generate(ctx, n, true, &format!("{}-b", n)) {
             Ok(t2) if t2 == text => st.bump("file_output_equals_stdout"),
             Ok(_) => st.violate("c15.run", format!("C15:file-output-differs:n={}", n), format!("n = {}: output written to a file differs from stdout", n), case()),
+            Err(e) if e == "watchdog" => st.inconclusive(format!("n_queens_gen -n {} (file output) hit the watchdog or could not be started", n)),
             Err(e) => st.violate("c15.run", format!("C15:generator-failed:n={}", n), e, case()),
         }
     }
@@ -130,7 +131,7 @@ pub fn check_n(ctx: &Ctx, st: &mut Stats, n: usize, exact: bool, with_rsbdd: boo
     }
     if with_rsbdd {
         // "solving it with rsbdd lists those placements"
-        let dir = ctx.scratch.join(format!("c15-rs-{}", n));
+        let dir = ctx.fresh_dir(&format!("c15-rs-{}", n));
         let _ = std::fs::create_dir_all(&dir);
         let f = dir.join("q.txt");
         let _ = std::fs::write(&f, &text);
@@ -265,13 +266,18 @@ pub fn check_n(ctx: &Ctx, st: &mut Stats, n: usize, exact: bool, with_rsbdd: boo
 }
 
 pub fn run(ctx: &Ctx) -> (Stats, Spec) {
-    let exact_max = ctx.tier.pick(8usize, 11usize);
-    let rsbdd_max = ctx.tier.pick(5usize, 7usize);
+    let exact_max = ctx.tier.pick(10usize, 12usize);
+    let rsbdd_max = ctx.tier.pick(6usize, 7usize);
     let mut sizes: Vec<(usize, bool, bool, u64)> = (1..=exact_max).map(|n| (n, true, n <= rsbdd_max, if n >= 4 { 2_000 } else { 0 })).collect();
-    let large: Vec<usize> = ctx.tier.pick(vec![12, 16, 31, 64, 100, 255, 256, 257], vec![12, 13, 14, 15, 16, 24, 32, 33, 64, 100, 128, 200, 255, 256, 257, 300, 400]);
+    let large: Vec<usize> = ctx.tier.pick(vec![10, 11, 12, 13, 16, 24, 31, 64, 100, 255, 256, 257], vec![12, 13, 14, 15, 16, 24, 32, 33, 64, 100, 128, 200, 255, 256, 257, 300, 400]);
     let probes = ctx.tier.pick(20_000u64, 400_000u64);
     for n in large {
-        sizes.push((n, false, false, probes));
+        // a size that is already compared exactly only gets the larger probe budget (one job per size)
+        if let Some(e) = sizes.iter_mut().find(|s| s.0 == n) {
+            e.3 = e.3.max(probes);
+        } else {
+            sizes.push((n, false, false, probes));
+        }
     }
     let parts = util::par_jobs(sizes.len(), |j| {
         let mut st = Stats::new();
@@ -282,7 +288,7 @@ pub fn run(ctx: &Ctx) -> (Stats, Spec) {
     let mut st = crate::report::merge_all(parts);
     st.exhaustive.push(format!("exact model-set equality for every board size n = 1..{}", exact_max));
     let spec = Spec {
-        rule: "every board size n = 1..8 [quick] / 1..11 [thorough]: the real generator's output (stdout and file) is parsed by the reference grammar, its variable set must be v_0..v_(n^2-1), and ALL its models (three-valued propagation search) are compared as a set with an independent backtracking enumeration; rsbdd -t -ft cross-check for n <= 5 / 7; larger n incl. 255, 256, 257: variable set, attacking and non-attacking square pairs (all pairs when feasible, else sampled with a bias to shared lines), empty rows/columns, a constructed placement and near-misses. distinct = board size (exact) / board size (probed); every board size is a configuration.".into(),
+        rule: "every board size n = 1..10 [quick] / 1..12 [thorough]: the real generator's output (stdout and file) is parsed by the reference grammar, its variable set must be v_0..v_(n^2-1), and ALL its models (three-valued propagation search) are compared as a set with an independent backtracking enumeration; rsbdd -t -ft cross-check for n <= 6 / 7; larger n incl. 255, 256, 257: variable set, attacking and non-attacking square pairs (all pairs when feasible, else sampled with a bias to shared lines), empty rows/columns, a constructed placement and near-misses. distinct = board size (exact) / board size (probed); every board size is a configuration.".into(),
         assumptions: vec![
             "v_k is read as 'a queen on row k div n, column k mod n'".into(),
             "for n beyond the enumerable bound the model set is only probed, not compared".into(),
